@@ -403,7 +403,7 @@ const RES: &[&str] = &["pack.mcmeta", "log4j2.xml", "assets/minecraft/lang/en_us
 const DIRS: &[&str] = &["net/", "net/minecraft/", "assets/", "com/", "com/google/", "META-INF/", "data/"];
 
 fn gen_jars(r: &mut StdRng) -> Value {
-	let tame = r.gen_bool(0.6);
+	let tame = r.gen_bool(0.35);
 	let mut client = Map::new();
 	let mut server = Map::new();
 	let ncls = r.gen_range(0..7);
@@ -454,7 +454,7 @@ pub fn gen(seed: u64, n: usize) -> Result<Vec<Value>> {
 			let level = *["interfaces", "fields", "methods"].choose(&mut r).unwrap_or(&"fields");
 			let np = r.gen_range(0..9);
 			let pool = key_pool(&mut r, level, np);
-			let tame = r.gen_bool(0.5);
+			let tame = r.gen_bool(0.35);
 			let (a, b) = gen_lists(&mut r, &pool, tame);
 			let same = a == b && r.gen_bool(0.5);
 			out.push(json!({"op": "lists", "level": level, "a": a, "b": b, "same": same}));
